@@ -4,6 +4,7 @@
   `active_set = active_set or self.active_set` fallback of `_neighbors` (an empty shadow set is replaced by the LIVE set).
 -/
 import AmiscProofs.IndexExtra
+import AmiscProps.C02
 
 namespace Amisc.C18
 
@@ -113,5 +114,24 @@ example : AllAccepted [1, 1] IState.init [[0, 0], [0, 1], [1, 0], [1, 1]] := by
   simp only [AllAccepted, Accepted]; decide
 example : simRun [1, 1] [[0, 0], [0, 1], [1, 0], [1, 1]] IState.init [[0, 0], [0, 1]] = run [1, 1] [[0, 0], [0, 1]] := by
   decide
+
+/-! ### the replay step as generated from `System.simulate_fit` -/
+
+/-- the replay step the driver runs — the statements of the loop body of `simulate_fit` read from the source, with the
+    `active_set or self.active_set` fall-back of `_neighbors` — is the reference `simStep` -/
+theorem generated_simStep_is_model (box : Idx) (live : List Idx) (st : IState) (idx : Idx) :
+    simStepGen box live st idx = simStep box live st idx := by
+  unfold simStepGen simStep Gen.nbrActiveFallback
+  by_cases h2 : idx ∈ st.cand
+  · simp [h2, Gen.simOps, applyCommit, C02.generated_nbrs_is_model]
+  · simp [h2, Gen.simOps, applyCommit, C02.generated_nbrs_is_model]
+
+/-- hence replaying a recorded history with the generated step regenerates the live state of the generated bookkeeping -/
+theorem generated_replay_eq_live (box : Idx) (live : List Idx) (hs : List Idx) (h : AllAccepted box IState.init hs) :
+    hs.foldl (simStepGen box live) IState.init = runGen box hs := by
+  have : (simStepGen box live) = (simStep box live) := by
+    funext st idx; exact generated_simStep_is_model box live st idx
+  rw [this, C02.generated_run_is_model]
+  exact replay_eq_live box live hs h
 
 end Amisc.C18
